@@ -709,6 +709,9 @@ func parsePolicyElementCustom(buf *bytes.Reader, size int, pol *LCPPolicyCustom)
 		return err
 	}
 
+	if size < 16 {
+		return fmt.Errorf("custom policy element is too small to hold its UUID: data length %d", size-16)
+	}
 	pol.Data = make([]byte, size-16)
 	err = binary.Read(buf, binary.LittleEndian,
 		&pol.Data)
